@@ -12,12 +12,71 @@ STANDING_ASSUMPTIONS = [
     'termination of device polling loops is not claimed',
 ]
 
+Q_ASSUME = [
+    'queue unit: raw-pointer accesses to descriptor table / available ring / used ring are contract stubs (DevMem, UsedPtr); '
+    'their memory effect on the real structs is exercised by the Kani scenario harnesses',
+    'queue unit: every value read from the used ring is uninterpreted (used_snap(site)); two executions of the same read site '
+    'are assumed to see the same value',
+    'queue unit: caller buffers are opaque handles InBuf/OutBuf carrying address+length identity (R5)',
+    'queue unit: axiom_mut_slice_len (a slice length cannot change through &mut [T])',
+    'queue unit: dev_tables_intact() - the device does not overwrite (device-readable) indirect tables; its violation is '
+    'known finding D10, demonstrated on the real code by Kani harness k_scribble_indirect',
+    'queue unit: add() precondition inputs.len()+outputs.len() <= usize::MAX (slices of 16-byte elements cannot exceed it)',
+]
+
 PROPS = {
+    'C01': {
+        'level': 'proof', 'units': ['queue'],
+        'kani_quick': ['k_life_direct', 'k_life_indirect'],
+        'kani_thorough': ['k_life_direct_anyidx', 'k_life_indirect_anyidx', 'k_two_direct', 'k_two_indirect'],
+        'kani_bounds': {'k_life_*': 'bounded stand-in: SIZE=4, one chain [1 in, 1 out], index 0xffff (anyidx: any 16-bit index)',
+                        'k_two_*': 'bounded stand-in: SIZE=4, two chains, both completion orders'},
+        'assumptions': Q_ASSUME,
+        'explanation': 'representation invariant VirtQueue::wf() (free list / ownership partition / per-chain descriptor contents / '
+                       'device copy == shadow) proved preserved by add, add_direct, add_indirect, recycle_descriptors, pop_used for all SIZE, '
+                       'all histories; add() postcondition: chain describes exactly the caller buffers in order, ring slot avail_idx%SIZE, index+1',
+    },
+    'C02': {
+        'level': 'proof', 'units': ['queue'], 'kani_quick': [], 'kani_thorough': ['k_life_direct'],
+        'assumptions': Q_ASSUME + ['program order only: fence(SeqCst)+Release store are assumed to order the preceding plain stores for '
+                                   'the device; the device fetches available entries in order'],
+        'explanation': 'ghost store log: add() appends descriptor stores (into descriptors that were free, never into outstanding chains), '
+                       'then Ring(slot), Fence, AvailIdx(old+1) in this order; pop_used/recycle/set_dev_notify never store the available index',
+    },
+    'C03': {
+        'level': 'proof', 'units': ['queue'],
+        'kani_quick': ['k_refuse', 'k_life_direct'],
+        'kani_thorough': ['k_life_direct_anyidx', 'k_life_indirect_anyidx', 'k_two_direct', 'k_two_indirect'],
+        'kani_bounds': {'k_refuse': 'bounded stand-in: SIZE=4', 'k_life_*': 'bounded stand-in: SIZE=4, one chain'},
+        'assumptions': Q_ASSUME,
+        'explanation': 'pop_used/peek_used/can_pop/available_desc/add contracts over arbitrary used-ring contents and all 2^16 index values '
+                       '(wrapping arithmetic in the contracts); refusal <=> no buffers or capacity, with *self unchanged',
+    },
+    'C04': {
+        'level': 'proof', 'units': ['queue'],
+        'kani_quick': ['k_life_indirect'],
+        'kani_thorough': ['k_life_direct', 'k_two_direct', 'k_two_indirect'],
+        'kani_bounds': {'k_life_*': 'bounded stand-in: SIZE=4, one chain; HAL call ledger with bouncing addresses'},
+        'assumptions': Q_ASSUME + ['exactly-once counting: at-least-once by proof (descriptor addresses are share_ret values; unshare '
+                                   'precondition = HAL safety clause), at-most-once by call-site census + bounded Kani ledger'],
+        'explanation': 'H::share / H::unshare carry the # Safety clauses of src/hal.rs as requires; unshare(paddr, buf, dir, ap) must be proved '
+                       'to receive paddr == share_ret(buf, dir, ap) from wf(); BufferDirection::Both never reaches share',
+    },
+    'C07': {
+        'level': 'proof', 'units': ['queue'],
+        'kani_quick': ['k_scribble_direct', 'k_scribble_indirect'],
+        'kani_thorough': ['k_life_direct', 'k_life_indirect'],
+        'kani_bounds': {'k_scribble_*': 'bounded stand-in: SIZE=4, one outstanding chain, one scribbled descriptor/table entry, arbitrary used ring'},
+        'assumptions': Q_ASSUME + ['drivers above the queue (owning queue, vsock parser, net, console, input) are covered by their own units '
+                                   'where built; see MANIFEST level_note'],
+        'explanation': 'all queue obligations (array bounds, unwrap/expect/assert unreachability, overflow freedom, wf preservation, unshare '
+                       'arguments) are proved with every used-ring value uninterpreted and any read of driver-owned device-visible memory havoc',
+    },
     'C05': {
         'level': 'proof',
         'units': ['queue'],
         'kani_quick': ['c05_should_notify_full_domain', 'c05_set_dev_notify'],
-        'kani_thorough': [],
+        'kani_thorough': ['k_life_direct_anyidx'],
         'kani_bounds': {'c05_should_notify_full_domain': 'loop-free after construction (SIZE=4): complete over '
                         '2^16 avail_idx x 2^16 avail_event x 2^16 old index x flags x event_idx',
                         'c05_set_dev_notify': 'loop-free: complete over flags x enable x event_idx'},
@@ -26,7 +85,4 @@ PROPS = {
         'explanation': 'should_notify/set_dev_notify/pop_used(used_event)/add_notify_wait_pop proved against the '
                        'specification predicate vring_need_event for all index values incl. wrap-around',
     },
-    'C01': {'level': 'proof', 'units': ['queue'], 'kani_quick': [], 'kani_thorough': []},
-    'C04': {'level': 'proof', 'units': ['queue'], 'kani_quick': [], 'kani_thorough': []},
-    'C03': {'level': 'proof', 'units': ['queue'], 'kani_quick': [], 'kani_thorough': []},
 }
